@@ -331,7 +331,14 @@ func genStep(t *rapid.T) Step {
 	for i := 0; i < nr && !s.Absent; i++ {
 		var r Range
 		if media {
-			switch rapid.IntRange(0, 6).Draw(t, "rk") {
+			switch rapid.IntRange(0, 7).Draw(t, "rk") {
+			case 7:
+				// look-alikes of an offered type: a type or subtype that only starts like (or is the start of) the
+				// offer's is a different token
+				m := rapid.SampledFrom(mimes).Draw(t, "lm")
+				i := strings.IndexByte(m, '/')
+				ty, sub := m[:i], m[i+1:]
+				r.Spec = rapid.SampledFrom([]string{ty + "ual/*", ty + "x/*", ty[:len(ty)-1] + "/*", "x" + ty + "/*", ty + "/" + sub + "x", ty + "/" + sub[:len(sub)-1], ty + "x/" + sub, ty + "/*x"}).Draw(t, "look")
 			case 0:
 				r.Spec = "*/*"
 			case 1, 2:
